@@ -20,7 +20,8 @@ RULE = ("histories = every ordered pair (thorough: also every triple) over the c
         "x first-touched path configuration. Oracle: canonical answer == answer in a fresh interpreter for that data "
         "state; fresh tables equal across seeds and import orders (incl. list order); positional == keyword forms. "
         "state = hash of all spil cache contents + data state; distinct = distinct histories; non-trivial = histories "
-        "whose last call hits at least one cached entry point (all).")
+        "whose last call hits at least one cached entry point (all)."
+        " Added: calls on one FindInList object that lives as long as the history, over an unsorted list.")
 ASSUMPTIONS = ["resolva's functools caches cannot be dumped; histories are therefore never pruned on state equality",
                "find answers are compared with order on unchanged data, as sets once a create event happened (directory order)"]
 
